@@ -308,6 +308,9 @@ def depth1(W, amount_W):
         out.append(["cat", [sig("a", sa)]])
         out.append(["cat", [sig("a", sa), ["const", 2, 2, False], sig("b", (2, True))]])
         out.append(["array", [sig("a", sa), sig("b", (2, True)), ["const", 1, None, False]], sig("c", (2, False))])
+        # a one-entry table indexed by a zero-width value (Signal(range(1))): element 0, whatever the index "holds"
+        out.append(["array", [sig("a", sa)], sig("c", (0, False))])
+        out.append(["add", ["arrayp", [sig("a", sa)], sig("c", (0, False))], ["const", 1, None, False]])
         out.append(["array", [sig("a", sa), sig("b", (3, False)), sig("d", (1, True)), ["const", -2, None, True]], sig("c", (2, False))])
     for c in consts_for(W):
         for k in UNARY:
